@@ -7,6 +7,8 @@ Driver for C07.  One case =
 expr    := (and e e) | (or e e) | (cmp op L R) | (in L (vals n|N …)) | (attr (ch v a…)) | (not e) | (exists v e)
          | (forall v e) | (pred name) | (barevar v) | (barelit T|F)
 operand := (ch v a…) | (lit n|N) | (other index|call|flatten|selfvar|objlit|nested [chain])
+`(sub C I [spelling])` with C, I := (ch v a…) | (slit rank): the substring test `I in C` on strings; `(strtab s1 s2 …)` (an item
+of the case) decodes the ranks that string columns and string literals carry (rank k = k-th entry, code-point sorted).
 `(in L (vals …) [in|contains])`: the optional last atom is the python spelling, irrelevant to the model.
 Optional `(mult T)`: the observation is the LIST of returned rows / solutions (ascending, with repetitions) and `the`
 is judged on that list, instead of the set of entities (in-memory side: `evalMemMulti`).
@@ -48,15 +50,20 @@ def parseOperand : Sexp → Option Operand
     | _ => none
   | s => (parseChain s).map .chain
 
-partial def parseExpr : Sexp → Option Expr
-  | .list [.atom "and", a, b] => do pure (.and (← parseExpr a) (← parseExpr b))
-  | .list [.atom "or", a, b] => do pure (.or (← parseExpr a) (← parseExpr b))
+def parseSOperand : Sexp → Option SOperand
+  | .list [.atom "slit", k] => k.asNat?.map .lit
+  | s => (parseChain s).map .chain
+
+partial def parseExpr (tab : StrTab) : Sexp → Option Expr
+  | .list (.atom "sub" :: a :: b :: _) => do pure (.substr tab (← parseSOperand a) (← parseSOperand b))
+  | .list [.atom "and", a, b] => do pure (.and (← parseExpr tab a) (← parseExpr tab b))
+  | .list [.atom "or", a, b] => do pure (.or (← parseExpr tab a) (← parseExpr tab b))
   | .list [.atom "cmp", .atom op, l, r] => do pure (.cmp (← parseCmp op) (← parseOperand l) (← parseOperand r))
   | .list (.atom "in" :: item :: .list (.atom "vals" :: vs) :: _) => do pure (.isIn (← parseOperand item) (← vs.mapM parseOptInt))
   | .list [.atom "attr", c] => (parseChain c).map .attr
-  | .list [.atom "not", e] => (parseExpr e).map .not
-  | .list [.atom "exists", v, e] => do pure (.exist (← v.asNat?) (← parseExpr e))
-  | .list [.atom "forall", v, e] => do pure (.all (← v.asNat?) (← parseExpr e))
+  | .list [.atom "not", e] => (parseExpr tab e).map .not
+  | .list [.atom "exists", v, e] => do pure (.exist (← v.asNat?) (← parseExpr tab e))
+  | .list [.atom "forall", v, e] => do pure (.all (← v.asNat?) (← parseExpr tab e))
   | .list [.atom "pred", .atom n] => some (.pred n)
   | .list [.atom "barevar", v] => v.asNat?.map .bareVar
   | .list [.atom "barelit", b] => b.asBool?.map .bareLit
@@ -97,9 +104,12 @@ def parseCase : Sexp → Option Case
       | [.atom "setOf"] => some SelKind.setOf
       | _ => none
     let vars ← (← Sexp.field? items "vars").mapM Sexp.asAtom?
+    let tab : StrTab ← match Sexp.field? items "strtab" with
+      | some xs => xs.mapM fun x => x.asAtom?.map String.toList
+      | none => some []
     let cond ← match (← Sexp.field? items "cond") with
       | [.atom "none"] => some none
-      | [e] => (parseExpr e).map some
+      | [e] => (parseExpr tab e).map some
       | _ => none
     let schema ← (← Sexp.field? items "schema").mapM parseClass
     let db ← (← Sexp.field? items "db").mapM parseObj
@@ -137,6 +147,7 @@ def run (s : Sexp) : String :=
         else
           (if trigByClass sq then ["F-C07-1"] else []) ++
           (if trigNull c.schema c.q c.db then ["F-C07-2"] else []) ++
-          (if trigEqJoin sq then ["F-C07-4"] else [])
+          (if trigEqJoin sq then ["F-C07-4"] else []) ++
+          (if trigLike sq then ["F-C07-5"] else [])
       s!"model=mem={mem} sql={sql}\tspec=PROP mem={mem} sql={mem}\ttrig={",".intercalate trig}"
 end KrroodVerif.Drive.C07
